@@ -101,7 +101,7 @@ impl Offset {
     pub fn len(&self) -> Option<usize> {
         match (self.begin, self.end) {
             (Cursor::BeginAligned(begin), Cursor::BeginAligned(end)) => Some(end - begin),
-            (Cursor::EndAligned(begin), Cursor::EndAligned(end)) => Some((end - begin).abs() as usize),
+            (Cursor::EndAligned(begin), Cursor::EndAligned(end)) => Some(end.abs_diff(begin)),
             _ => None
         }
     }
